@@ -76,53 +76,74 @@ theorem relay_good (w : CS b) (view cur : Mapping) (f : Mapping → R (CState b.
   · exact ⟨_, rfl, hf, rfl⟩
   · exact ⟨_, by simp [finish], hf, rfl⟩
 
-theorem awResume_good (w : CS b) (view : Mapping) (h : w.ctx = some view) (r : Resume) (cur : Mapping) :
-    GoodStep view cur (awResume repaired w r cur) := by
-  obtain ⟨coro, sr, ctx, it, sw⟩ := w
+theorem awStart_good (w : CS b) (view : Mapping) (h : w.ctx = some view) (cur : Mapping) :
+    GoodStep view cur (awStart repaired w cur) := by
+  obtain ⟨coro, sr, ctx, it, sw, ct⟩ := w
   simp only at h
   subst h
+  unfold awStart
+  simp only
+  split
+  · exact ⟨(ECoro.send b coro 0 view).m, by simp [finish, inCtx, repaired],
+      by simpa [inCtx, repaired] using chain_send .., by simp [inCtx, repaired]⟩
+  · exact ⟨_, rfl, rfl, rfl⟩
+  · exact ⟨_, by simp [finish], rfl, rfl⟩
+
+theorem awLoop_good (w : CS b) (view : Mapping) (h : w.ctx = some view) (r : Resume) (cur : Mapping) :
+    GoodStep view cur (awLoop repaired w r cur) := by
+  obtain ⟨coro, sr, ctx, it, sw, ct⟩ := w
+  simp only at h
+  subst h
+  unfold awLoop
+  cases r with
+  | send v => exact relay_good _ _ _ _ (chain_send ..)
+  | throw e =>
+    simp only
+    split
+    · exact ⟨(ECoro.close b coro view).m, by simp [finish, inCtx, repaired],
+        by simpa [inCtx, repaired] using chain_close .., by simp [inCtx, repaired]⟩
+    · exact relay_good _ _ _ _ (chain_throw ..)
+
+theorem awResume_good (w : CS b) (view : Mapping) (h : w.ctx = some view) (r : Resume) (cur : Mapping) :
+    GoodStep view cur (awResume repaired w r cur) := by
   unfold awResume
-  cases it <;> simp only
-  · -- fresh
-    cases r with
-    | throw e => exact ⟨_, by simp [finish], rfl, rfl⟩
-    | send v =>
-      simp only
-      split
-      · exact ⟨_, rfl, rfl, rfl⟩
-      · split
-        · exact ⟨(ECoro.send b coro 0 view).m, by simp [finish, inCtx, repaired],
-            by simpa [inCtx, repaired] using chain_send .., by simp [inCtx, repaired]⟩
-        · exact ⟨_, rfl, rfl, rfl⟩
-        · exact ⟨_, by simp [finish], rfl, rfl⟩
-  · -- loop
-    cases r with
-    | send v => exact relay_good _ _ _ _ (chain_send ..)
+  split
+  · cases r <;> exact ⟨_, h, rfl, rfl⟩
+  · cases r with
     | throw e =>
       simp only
       split
-      · exact ⟨(ECoro.close b coro view).m, by simp [finish, inCtx, repaired],
-          by simpa [inCtx, repaired] using chain_close .., by simp [inCtx, repaired]⟩
-      · exact relay_good _ _ _ _ (chain_throw ..)
-  · cases r <;> exact ⟨_, rfl, rfl, rfl⟩
+      · obtain ⟨v1, h1, h2, h3⟩ := awStart_good w view h cur
+        split
+        · obtain ⟨v2, g1, g2, g3⟩ := awLoop_good (awStart repaired w cur).w v1 h1 (.throw e) (awStart repaired w cur).cur
+          exact ⟨v2, g1, Chain.append h2 g2, by rw [g3, h3]⟩
+        · exact ⟨v1, h1, h2, h3⟩
+      · exact ⟨_, by simpa [finish] using h, rfl, rfl⟩
+    | send v =>
+      simp only
+      split
+      · exact ⟨_, h, rfl, rfl⟩
+      · exact awStart_good w view h cur
+  · exact awLoop_good w view h r cur
 
 theorem awClose_good (w : CS b) (view : Mapping) (h : w.ctx = some view) (cur : Mapping) :
     GoodStep view cur (awClose repaired w cur) := by
   unfold awClose
   split
   · exact ⟨_, h, rfl, rfl⟩
-  · exact ⟨_, h, rfl, rfl⟩
-  · have g := awResume_good w view h (.throw .genExit) cur
-    dsimp only
-    split <;> exact g
+  · split
+    · exact ⟨_, h, rfl, rfl⟩
+    · have g := awResume_good w view h (.throw .genExit) cur
+      dsimp only
+      split <;> exact g
 
 theorem athrow_good (w : CS b) (view : Mapping) (h : w.ctx = some view) (e : Exc) (cur : Mapping) :
     GoodStep view cur (athrow repaired w e cur) := by
   unfold athrow
   simp only [h, inCtx, repaired]
-  have g := awResume_good (b := b)
+  have g := awStart_good (b := b)
     ⟨(ECoro.throw b w.coro e view).st, some (ECoro.throw b w.coro e view).out,
-      some (ECoro.throw b w.coro e view).m, .fresh, false⟩ _ rfl (.send 0) cur
+      some (ECoro.throw b w.coro e view).m, .fresh, false, false⟩ _ rfl cur
   obtain ⟨v', h1, h2, h3⟩ := g
   exact ⟨v', h1, Chain.append (chain_throw ..) h2, h3⟩
 
@@ -144,7 +165,7 @@ theorem sthrow_good (n : Nat) (w : CS b) (view : Mapping) (h : w.ctx = some view
     unfold sthrow
     simp only [h, inCtx, repaired]
     split
-    · have g := ih ⟨(ECoro.throw b w.coro e view).st, w.sr, some (ECoro.throw b w.coro e view).m, w.it, w.swallow⟩
+    · have g := ih ⟨(ECoro.throw b w.coro e view).st, w.sr, some (ECoro.throw b w.coro e view).m, w.it, w.swallow, w.cont⟩
         _ rfl
       obtain ⟨v', h1, h2, h3⟩ := g
       exact ⟨v', h1, Chain.append (chain_throw ..) h2, h3⟩
@@ -169,8 +190,8 @@ theorem step_good (w : CS b) (view : Mapping) (h : w.ctx = some view) (op : Op) 
   | sclose => exact sclose_good w view h cur
   | callerSet x v => exact ⟨_, h, rfl, rfl⟩
 
-theorem init_good (b : EBody) (m0 cur : Mapping) :
-    GoodStep m0 cur (init repaired b (some m0) cur) := by
+theorem init_good (b : EBody) (m0 cur : Mapping) (cont : Bool) :
+    GoodStep m0 cur (init repaired b (some m0) cur cont) := by
   unfold init
   simp only [inCtx, repaired]
   exact ⟨_, rfl, chain_send .., rfl⟩
@@ -202,48 +223,71 @@ theorem relay_shared (w : CS b) (cur : Mapping) (x : R (CState b.σ))
   · exact ⟨rfl, hf⟩
   · exact ⟨by simp [finish], hf⟩
 
-theorem awResume_shared (W : Wraps) (w : CS b) (h : w.ctx = none) (r : Resume) (cur : Mapping) :
-    SharedStep cur (awResume W w r cur) := by
-  obtain ⟨coro, sr, ctx, it, sw⟩ := w
+theorem awStart_shared (W : Wraps) (w : CS b) (h : w.ctx = none) (cur : Mapping) :
+    SharedStep cur (awStart W w cur) := by
+  obtain ⟨coro, sr, ctx, it, sw, ct⟩ := w
   simp only at h
   subst h
+  unfold awStart
+  simp only [inCtx_none]
+  split
+  · exact ⟨by simp [finish], chain_send ..⟩
+  · exact ⟨rfl, rfl⟩
+  · exact ⟨by simp [finish], rfl⟩
+
+theorem awLoop_shared (W : Wraps) (w : CS b) (h : w.ctx = none) (r : Resume) (cur : Mapping) :
+    SharedStep cur (awLoop W w r cur) := by
+  obtain ⟨coro, sr, ctx, it, sw, ct⟩ := w
+  simp only at h
+  subst h
+  unfold awLoop
+  cases r with
+  | send v => simp only [inCtx_none]; exact relay_shared _ _ _ (chain_send ..)
+  | throw e =>
+    simp only [inCtx_none]
+    split
+    · exact ⟨by simp [finish], chain_close ..⟩
+    · exact relay_shared _ _ _ (chain_throw ..)
+
+theorem awResume_shared (W : Wraps) (w : CS b) (h : w.ctx = none) (r : Resume) (cur : Mapping) :
+    SharedStep cur (awResume W w r cur) := by
   unfold awResume
-  cases it <;> simp only [inCtx_none]
+  split
+  · cases r <;> exact ⟨h, rfl⟩
   · cases r with
-    | throw e => exact ⟨by simp [finish], rfl⟩
-    | send v =>
-      simp only
-      split
-      · exact ⟨rfl, rfl⟩
-      · split
-        · exact ⟨by simp [finish], chain_send ..⟩
-        · exact ⟨rfl, rfl⟩
-        · exact ⟨by simp [finish], rfl⟩
-  · cases r with
-    | send v => exact relay_shared _ _ _ (chain_send ..)
     | throw e =>
       simp only
       split
-      · exact ⟨by simp [finish], chain_close ..⟩
-      · exact relay_shared _ _ _ (chain_throw ..)
-  · cases r <;> exact ⟨rfl, rfl⟩
+      · obtain ⟨h1, h2⟩ := awStart_shared W w h cur
+        split
+        · obtain ⟨g1, g2⟩ := awLoop_shared W (awStart W w cur).w h1 (.throw e) (awStart W w cur).cur
+          exact ⟨g1, Chain.append h2 g2⟩
+        · exact ⟨h1, h2⟩
+      · exact ⟨by simpa [finish] using h, rfl⟩
+    | send v =>
+      simp only
+      split
+      · exact ⟨h, rfl⟩
+      · exact awStart_shared W w h cur
+  · exact awLoop_shared W w h r cur
 
 theorem awClose_shared (W : Wraps) (w : CS b) (h : w.ctx = none) (cur : Mapping) :
     SharedStep cur (awClose W w cur) := by
   unfold awClose
   split
   · exact ⟨h, rfl⟩
-  · exact ⟨h, rfl⟩
-  · have g := awResume_shared W w h (.throw .genExit) cur
-    dsimp only
-    split <;> exact g
+  · split
+    · exact ⟨h, rfl⟩
+    · have g := awResume_shared W w h (.throw .genExit) cur
+      dsimp only
+      split <;> exact g
 
 theorem athrow_shared (W : Wraps) (w : CS b) (h : w.ctx = none) (e : Exc) (cur : Mapping) :
     SharedStep cur (athrow W w e cur) := by
   unfold athrow
   simp only [h, inCtx_none]
-  have g := awResume_shared (b := b) W
-    ⟨(ECoro.throw b w.coro e cur).st, some (ECoro.throw b w.coro e cur).out, none, .fresh, false⟩ rfl (.send 0)
+  have g := awStart_shared (b := b) W
+    ⟨(ECoro.throw b w.coro e cur).st, some (ECoro.throw b w.coro e cur).out, none, .fresh, false, false⟩ rfl
     (ECoro.throw b w.coro e cur).m
   exact ⟨g.1, Chain.append (chain_throw ..) g.2⟩
 
@@ -265,7 +309,7 @@ theorem sthrow_shared (W : Wraps) (n : Nat) (w : CS b) (h : w.ctx = none) (e : E
     unfold sthrow
     simp only [h, inCtx_none]
     split
-    · have g := ih ⟨(ECoro.throw b w.coro e cur).st, w.sr, none, w.it, w.swallow⟩ rfl (ECoro.throw b w.coro e cur).m
+    · have g := ih ⟨(ECoro.throw b w.coro e cur).st, w.sr, none, w.it, w.swallow, w.cont⟩ rfl (ECoro.throw b w.coro e cur).m
       exact ⟨g.1, Chain.append (chain_throw ..) g.2⟩
     · exact ⟨rfl, chain_throw ..⟩
 
@@ -275,7 +319,8 @@ theorem sclose_shared (W : Wraps) (w : CS b) (h : w.ctx = none) (cur : Mapping) 
   simp only [h, inCtx_none]
   exact ⟨rfl, chain_close ..⟩
 
-theorem init_shared (W : Wraps) (b : EBody) (cur : Mapping) : SharedStep cur (init W b none cur) := by
+theorem init_shared (W : Wraps) (b : EBody) (cur : Mapping) (cont : Bool) :
+    SharedStep cur (init W b none cur cont) := by
   unfold init
   simp only [inCtx_none]
   exact ⟨rfl, chain_send ..⟩
@@ -310,12 +355,12 @@ theorem sim_step (W : Wraps) (s : Option (CS b)) (st : CState b.σ) (h : Sim s s
     (∀ y, ((coroAwaitNone W b).resume s r m).2.1 = .yield y →
       Sim ((coroAwaitNone W b).resume s r m).1 ((nativeAwaitE b).resume st r m).1) := by
   obtain ⟨w, rfl, hc, hi, hs, rfl⟩ := h
-  obtain ⟨coro, sr, ctx, it, sw⟩ := w
+  obtain ⟨coro, sr, ctx, it, sw, ct⟩ := w
   simp only at hc hi hs
   subst hc hi hs
   cases r with
   | send v =>
-    simp only [coroAwaitNone, nativeAwaitE, awResume, inCtx_none, relay]
+    simp only [coroAwaitNone, nativeAwaitE, awResume, awLoop, inCtx_none, relay]
     split
     · rename_i y hy
       refine ⟨by simp [hy], fun y' _ => ⟨_, rfl, rfl, rfl, rfl, rfl⟩⟩
@@ -326,7 +371,7 @@ theorem sim_step (W : Wraps) (s : Option (CS b)) (st : CState b.σ) (h : Sim s s
         simp [finish] at hy
         exact absurd hy (hny y)
   | throw e =>
-    simp only [coroAwaitNone, nativeAwaitE, awResume, inCtx_none]
+    simp only [coroAwaitNone, nativeAwaitE, awResume, awLoop, inCtx_none]
     split
     · -- GeneratorExit
       rcases close_out (b := b) coro m with ⟨v, hv⟩ | ⟨e', he', hne⟩
@@ -346,8 +391,7 @@ theorem sim_first (W : Wraps) (m : Mapping) :
     ((coroAwaitNone W b).resume none (.send 0) m).2 = ((nativeAwaitE b).resume (.created b.init) (.send 0) m).2 ∧
     (∀ y, ((coroAwaitNone W b).resume none (.send 0) m).2.1 = .yield y →
       Sim ((coroAwaitNone W b).resume none (.send 0) m).1 ((nativeAwaitE b).resume (.created b.init) (.send 0) m).1) := by
-  simp only [coroAwaitNone, nativeAwaitE, init, awResume, inCtx_none]
-  simp only [ne_eq, not_true_eq_false, ↓reduceIte]
+  simp only [coroAwaitNone, nativeAwaitE, init, awStart, inCtx_none]
   split
   · rename_i hsr; simp at hsr
   · rename_i y hsr
@@ -391,33 +435,74 @@ theorem rp_sclose : repaired.sclose = true := rfl
 
 theorem SameButCur.rfl' (s : SR b) : SameButCur s s := ⟨rfl, rfl, rfl⟩
 
-theorem awResume_indep (w : CS b) (view : Mapping) (h : w.ctx = some view) (r : Resume) (cur cur' : Mapping) :
-    SameButCur (awResume repaired w r cur) (awResume repaired w r cur') := by
-  obtain ⟨coro, sr, ctx, it, sw⟩ := w
+theorem rp_reuse : repaired.reuse = true := rfl
+theorem rp_send : repaired.send = true := rfl
+theorem rp_throw : repaired.throw = true := rfl
+theorem rp_genexit : repaired.genexit = true := rfl
+
+theorem awStart_indep (w : CS b) (view : Mapping) (h : w.ctx = some view) (cur cur' : Mapping) :
+    SameButCur (awStart repaired w cur) (awStart repaired w cur') := by
+  obtain ⟨coro, sr, ctx, it, sw, ct⟩ := w
   simp only at h
   subst h
-  unfold awResume
-  cases it <;> cases r <;> simp only [inCtx, repaired, relay, SameButCur]
+  unfold awStart
+  simp only [inCtx, rp_reuse, SameButCur]
+  split <;> exact ⟨rfl, rfl, rfl⟩
+
+theorem awLoop_indep (w : CS b) (view : Mapping) (h : w.ctx = some view) (r : Resume) (cur cur' : Mapping) :
+    SameButCur (awLoop repaired w r cur) (awLoop repaired w r cur') := by
+  obtain ⟨coro, sr, ctx, it, sw, ct⟩ := w
+  simp only at h
+  subst h
+  unfold awLoop
+  cases r <;> simp only [inCtx, rp_send, rp_throw, rp_genexit, relay, SameButCur]
   all_goals repeat (first | exact ⟨rfl, rfl, rfl⟩ | trivial | split)
+
+theorem awResume_indep (w : CS b) (view : Mapping) (h : w.ctx = some view) (r : Resume) (cur cur' : Mapping) :
+    SameButCur (awResume repaired w r cur) (awResume repaired w r cur') := by
+  unfold awResume
+  split
+  · cases r <;> exact ⟨rfl, rfl, rfl⟩
+  · cases r with
+    | throw e =>
+      simp only
+      split
+      · obtain ⟨h1, h2, h3⟩ := awStart_indep w view h cur cur'
+        obtain ⟨v1, g1, _, _⟩ := awStart_good w view h cur
+        rw [← h2]
+        split
+        · obtain ⟨k1, k2, k3⟩ := awLoop_indep (awStart repaired w cur).w v1 g1 (.throw e)
+            (awStart repaired w cur).cur (awStart repaired w cur').cur
+          rw [← h1, ← h3]
+          exact ⟨k1, k2, by simp only [k3]⟩
+        · exact ⟨h1, h2, h3⟩
+      · exact ⟨rfl, rfl, rfl⟩
+    | send v =>
+      simp only
+      split
+      · exact ⟨rfl, rfl, rfl⟩
+      · exact awStart_indep w view h cur cur'
+  · exact awLoop_indep w view h r cur cur'
 
 theorem awClose_indep (w : CS b) (view : Mapping) (h : w.ctx = some view) (cur cur' : Mapping) :
     SameButCur (awClose repaired w cur) (awClose repaired w cur') := by
   unfold awClose
   split
   · exact ⟨rfl, rfl, rfl⟩
-  · exact ⟨rfl, rfl, rfl⟩
-  · obtain ⟨h1, h2, h3⟩ := awResume_indep w view h (.throw .genExit) cur cur'
-    simp only [SameButCur]
-    rw [h2]
-    split <;> simp [h1, h2, h3]
+  · split
+    · exact ⟨rfl, rfl, rfl⟩
+    · obtain ⟨h1, h2, h3⟩ := awResume_indep w view h (.throw .genExit) cur cur'
+      simp only [SameButCur]
+      rw [h2]
+      split <;> simp [h1, h2, h3]
 
 theorem athrow_indep (w : CS b) (view : Mapping) (h : w.ctx = some view) (e : Exc) (cur cur' : Mapping) :
     SameButCur (athrow repaired w e cur) (athrow repaired w e cur') := by
   unfold athrow
   simp only [h, inCtx, rp_athrow]
-  obtain ⟨h1, h2, h3⟩ := awResume_indep (b := b)
+  obtain ⟨h1, h2, h3⟩ := awStart_indep (b := b)
     ⟨(ECoro.throw b w.coro e view).st, some (ECoro.throw b w.coro e view).out,
-      some (ECoro.throw b w.coro e view).m, .fresh, false⟩ _ rfl (.send 0) cur cur'
+      some (ECoro.throw b w.coro e view).m, .fresh, false, false⟩ _ rfl cur cur'
   exact ⟨h1, h2, by simp [h3]⟩
 
 theorem aclose_indep (w : CS b) (view : Mapping) (h : w.ctx = some view) (cur cur' : Mapping) :
@@ -439,7 +524,7 @@ theorem sthrow_indep (n : Nat) (w : CS b) (view : Mapping) (h : w.ctx = some vie
     unfold sthrow
     simp only [h, inCtx, rp_sthrow]
     split
-    · obtain ⟨h1, h2, h3⟩ := ih ⟨(ECoro.throw b w.coro e view).st, w.sr, some (ECoro.throw b w.coro e view).m, w.it, w.swallow⟩
+    · obtain ⟨h1, h2, h3⟩ := ih ⟨(ECoro.throw b w.coro e view).st, w.sr, some (ECoro.throw b w.coro e view).m, w.it, w.swallow, w.cont⟩
         _ rfl
       exact ⟨h1, h2, by simp [h3]⟩
     · exact ⟨rfl, rfl, rfl⟩
